@@ -96,6 +96,28 @@ def _forget_aliases(obj: Object | Alias) -> None:
             _forget_aliases(member)
 
 
+def _attach(container: Any, value: Object | Alias) -> None:
+    # The member knows where it lives now: a module of the collection has no parent (it may have had one, as a submodule),
+    # and the resolved aliases of an attached sub-tree are listed by their targets under their new path.
+    if container.is_collection:
+        value._modules_collection = container  # type: ignore[union-attr]
+        if getattr(value, "parent", None) is not None:
+            value.parent = None  # type: ignore[assignment]
+    else:
+        value.parent = container
+    if not value.is_alias:
+        _relist_aliases(value)  # type: ignore[arg-type]
+
+
+def _relist_aliases(obj: Object) -> None:
+    for member in obj.members.values():
+        if not member.is_alias:
+            _relist_aliases(member)  # type: ignore[arg-type]
+        elif member._target is not None:  # type: ignore[union-attr]
+            member._forget_target()  # type: ignore[union-attr]
+            member._update_target_aliases()  # type: ignore[union-attr]
+
+
 class DelMembersMixin:
     """Mixin class to share methods for deleting members.
 
@@ -188,10 +210,7 @@ class SetMembersMixin:
             if previous is not None and previous is not value:
                 _forget_aliases(previous)
             self.members[name] = value  # type: ignore[attr-defined]
-            if self.is_collection:  # type: ignore[attr-defined]
-                value._modules_collection = self  # type: ignore[union-attr]
-            else:
-                value.parent = self  # type: ignore[assignment]
+            _attach(self, value)
         else:
             self.members[parts[0]][parts[1:]] = value  # type: ignore[attr-defined]
 
@@ -236,10 +255,7 @@ class SetMembersMixin:
                 if member is not value and not merged:
                     _forget_aliases(member)
             self.members[name] = value  # type: ignore[attr-defined]
-            if self.is_collection:  # type: ignore[attr-defined]
-                value._modules_collection = self  # type: ignore[union-attr]
-            else:
-                value.parent = self  # type: ignore[assignment]
+            _attach(self, value)
             # Re-target aliases only once the new member is attached:
             # its path (hence the aliases' target path) is not known before.
             # Skip stale entries: aliases that do not reach the replaced member anymore
